@@ -247,11 +247,11 @@ def rule_registration(run):
             if isinstance(c.func, ast.Attribute) and c.func.attr == "append":
                 d = c.func.value
                 # <stack>[k]._cohdl_block_info.<list>.append(x)
-                if isinstance(d, ast.Attribute) and isinstance(d.value, ast.Attribute) and d.value.attr == "_cohdl_block_info" and isinstance(d.value.value, ast.Subscript) and dotted(d.value.value.value) == "_block_stack":
-                    k = d.value.value.slice
+                if isinstance(d, ast.Attribute) and isinstance(d.value, ast.Attribute) and d.value.attr == "_cohdl_block_info" and d.attr in ("_subblocks", "_subcontext", "_exit_handlers") and dotted(d.value.value) != "self":
+                    recv = d.value.value
                     n += 1
-                    ok = isinstance(k, ast.UnaryOp) and isinstance(k.op, ast.USub) and isinstance(k.operand, ast.Constant) and k.operand.value == 1
-                    run.ob(ok, q, file=ctx.rel, line=c.lineno, detail=f"{d.attr}", expected="_block_stack[-1] (innermost open block)", found=src(d.value.value))
+                    ok = isinstance(recv, ast.Subscript) and dotted(recv.value) == "_block_stack" and isinstance(recv.slice, ast.UnaryOp) and isinstance(recv.slice.op, ast.USub) and isinstance(recv.slice.operand, ast.Constant) and recv.slice.operand.value == 1
+                    run.ob(ok, q, file=ctx.rel, line=c.lineno, detail=f"{d.attr}", expected="_block_stack[-1] (innermost open block)", found=src(recv))
     if n < 4:
         raise AnalysisError(f"registration sites on the block stack not recognised ({n})")
     run.end()
@@ -268,17 +268,92 @@ def rule_idset(run):
     um = run.idx.mod("cohdl/utility/id_map.py")
     f = um.func("IdSet.add")
 
+    # the content is an IdMap: its methods are interpreted from the source as well (IdSet.add may delegate to them);
+    # the model keeps an ordered python dict as the underlying `dict` storage, element identity = the element token
+    class _Store(dict):
+        pass
+
+    class _Super:
+        def __init__(self, m):
+            self.m = m
+
+        def __setitem__(self, k, v):
+            dict.__setitem__(self.m.store, k, v)
+
+        def __getitem__(self, k):
+            return dict.__getitem__(self.m.store, k)
+
+        def __delitem__(self, k):
+            dict.__delitem__(self.m.store, k)
+
+        def __contains__(self, k):
+            return dict.__contains__(self.m.store, k)
+
+    class _DictNS:
+        """the `dict` type as used for unbound calls: dict.pop(self, key, default) ..."""
+
+        @staticmethod
+        def _s(m):
+            return m.store if isinstance(m, _IdMapModel) else m
+
+        def pop(self, m, *a):
+            return dict.pop(self._s(m), *a)
+
+        def __getitem__(self, m, k=None):
+            return dict.__getitem__(self._s(m), k)
+
+        def __setitem__(self, m, k, v):
+            dict.__setitem__(self._s(m), k, v)
+
+        def keys(self, m):
+            return dict.keys(self._s(m))
+
+        def __call__(self, *a, **k):
+            return dict(*a, **k)
+
+    class _IdMapModel:
+        def __init__(self):
+            self.store = _Store()
+
+        def _call(self, name, *a):
+            pr = dict(prims)
+            pr["super"] = lambda: _Super(self)
+            return Interp(um, pr).call_function(f"IdMap.{name}", self, *a)
+
+        def __setitem__(self, k, v):
+            self._call("__setitem__", k, v)
+
+        def __getitem__(self, k):
+            return self._call("__getitem__", k)
+
+        def __contains__(self, k):
+            return self._call("__contains__", k)
+
+        def map_self(self, obj):
+            return self._call("map_self", obj)
+
+        def pop(self, *a):
+            return self.store.pop(*a)
+
+        def values(self):
+            return self.store.values()
+
     class _Self:
         def __init__(self):
-            self._content = {}
+            self._content = _IdMapModel()
 
-    prims = {"id": lambda x: x, "__setattr__": lambda o, k, v: setattr(o, k, v), "iter": iter, "None": None}
+    class _El:
+        def __init__(self, n):
+            self.n = n
+
+    prims = {"id": lambda x: x, "__setattr__": lambda o, k, v: setattr(o, k, v), "iter": iter, "type": type, "int": int, "str": str, "dict": _DictNS()}
     for seq, exp in ((["a", "b", "a"], ["a", "b"]), (["a", "b", "c", "a", "b"], ["a", "b", "c"]), (["a", "a"], ["a"]), (["a", "b", "c"], ["a", "b", "c"])):
         so = _Self()
+        toks = {}
         try:
             for e in seq:
-                Interp(um, dict(prims)).call_function("IdSet.add", so, e)
-            got = list(so._content.values())
+                Interp(um, dict(prims)).call_function("IdSet.add", so, toks.setdefault(e, _El(e)))
+            got = [x.n for x in so._content.store.values()]
         except Reject as ex:
             got = f"rejected: {ex}"
         run.ob(got == exp, "IdSet.add", file=um.rel, line=f.node.lineno, detail="add " + ",".join(seq), expected=str(exp), found=str(got))
@@ -298,7 +373,33 @@ def rule_usage(run):
     c07.rule_usage(run)        # instance outputs obey the same driver rules as the assignments they stand for
 
 
-RULES = [rule_interface, rule_port_map, rule_templates, rule_library_order, rule_defaults, rule_shared, rule_registration, rule_idset, rule_usage]
+def rule_inherit_copy(run):
+    run.begin(
+        "C12.g",
+        "an entity class derived from another entity starts from a COPY of the inherited interface: ports / generics / "
+        "attributes added by the subclass never appear in the base entity's interface",
+        floor=3,
+    )
+    ctx = run.idx.mod(CTX)
+    f = ctx.func("Entity.__init_subclass__")
+    from ..rules.snapshot import _is_copy_of
+    n = 0
+    for a in walk_local(f.node):
+        if isinstance(a, ast.Assign) and isinstance(a.targets[0], ast.Name):
+            refs = [dotted(x) for x in ast.walk(a.value) if isinstance(x, ast.Attribute) and (dotted(x) or "").startswith("cls._cohdl_info.")]
+            refs = [r for r in refs if r.count(".") == 2]
+            if not refs:
+                continue
+            n += 1
+            v = a.value
+            ok = _is_copy_of(v, refs[0]) or (isinstance(v, ast.Dict) and all(k is None or True for k in v.keys) and any(k is None for k in v.keys))
+            run.ob(ok, "Entity.__init_subclass__", file=ctx.rel, line=a.lineno, detail=a.targets[0].id, expected=f"a copy of {refs[0]} (dict(..) / {{**..}})", found=src(v)[:70])
+    if n < 3:
+        raise AnalysisError(f"Entity.__init_subclass__: inherited interface parts not recognised ({n})")
+    run.end()
+
+
+RULES = [rule_interface, rule_port_map, rule_templates, rule_library_order, rule_defaults, rule_shared, rule_registration, rule_idset, rule_usage, rule_inherit_copy]
 LEVEL = "other"
 EXPLANATION = (
     "Structural half of 'instantiating equals inlining', for all hierarchies: the emitted interface (declared ports, "
